@@ -360,6 +360,20 @@ impl Exec {
             "w" | "aw" => self.write_op(t),
             // fixed call sequences through the api crate's closure-taking container writers: every write
             // status as the api crate reports it (its own mapping of the provider's numeric codes)
+            "panicinit" => {
+                // the documented first step of a guest: natively it installs nothing
+                api::init_panic_handler();
+                Some("ok".to_string())
+            }
+            "panicrecover" => {
+                // this thread's own code panics and recovers: nothing of the provider's is involved
+                let r = std::panic::catch_unwind(|| {
+                    if std::hint::black_box(true) {
+                        panic!("a panic of the embedding code, caught by it");
+                    }
+                });
+                Some(if r.is_err() { "recovered".to_string() } else { "no-panic".to_string() })
+            }
             "palloc" => {
                 // the exported allocator, called the way the trampoline's glue calls it
                 extern "C" {
